@@ -1705,6 +1705,16 @@ def mon_c13(case_line, acts):
     """single-run part of C13: a disconnect() whose future was dropped after the transport had accepted bytes of its
     DISCONNECT leaves a handle that is still live (the packet is neither finished nor forgotten)"""
     out = []
+    # "a request that was not enqueued leaves no trace": a publish / subscribe / unsubscribe whose future is dropped before
+    # its packet was queued has consumed no packet identifier either
+    for i, a in enumerate(acts):
+        if i > 0 and a.code in (1, 2, 3) and a.result == 'cancelled' and a.state and acts[i - 1].state:
+            st, prev = a.state, acts[i - 1].state
+            ids = lambda s_: [x.split(':')[0] for x in list_field(s_.get('ret', '[]'))]
+            if 'pid' in st and 'pid' in prev and ids(st) == ids(prev) and st['pid'] != prev['pid']:
+                out.append(V('the request of action #%d was dropped before it was enqueued, yet the identifier counter moved '
+                             'from %s to %s: later packets get other identifiers than in the run without it' % (i, prev['pid'], st['pid'])))
+                break
     for a in acts:
         if a.code == 4 and a.result == 'cancelled' and any(e[0] == 'w' and e[2] for e in a.events) \
                 and (a.state or {}).get('live') == '1':
